@@ -315,7 +315,7 @@ def submit_transfer(w, idx):
                 f.write(info['expected'])
             fileobj = p
         else:
-            fileobj = SourceStream(sched, data, seekable=(src in ('seekable', 'duck')),
+            fileobj = SourceStream(sched, data, seekable=(src in ('seekable', 'duck')), short=t.get('short'),
                                    start=t.get('start', 0), name=f'src{idx}',
                                    fault=('src:read' in faults and _is_victim(w, idx)))
             info['stream'] = fileobj
